@@ -54,7 +54,7 @@ def run(tier):
     esz = [(2, 2), (3, 2)] if tier == "quick" else [(2, 2), (3, 3), (4, 3), (6, 2)]
     jobs += [("ext-BreakTime:N=%d,T=%d" % (n, t), tz_ext.job_breaktime_ext, {"N": n, "T": t}) for n, t in esz]
     from . import tz_extend
-    jobs += [("ExtendTransitions:year loop", tz_extend.job_extend, {"N": 1, "T": 2}), ("ExtendTransitions:IsLeap", tz_extend.job_isleap, {}), ("ExtendTransitions:AllYearDST", tz_extend.job_allyear, {}),
+    jobs += [("ExtendTransitions:year loop", tz_extend.job_extend, {"N": 1, "T": 2}), ("ExtendTransitions:standard-time-only footer", tz_extend.job_extend, {"N": 2, "T": 2, "stdonly": True}), ("ExtendTransitions:IsLeap", tz_extend.job_isleap, {}), ("ExtendTransitions:AllYearDST", tz_extend.job_allyear, {}),
              ("calendar:step lemmas", tz_extend.job_calendar_steps, {}), ("calendar:400-year periodicity", tz_extend.job_periodicity, {})]
     return J.run_property("C01", tier, jobs, {"BreakTime": "break", "ext-BreakTime": "break"},
         "SMT over all int64 instants, all hint values and all well-formed tables of the stated sizes.",
